@@ -125,6 +125,11 @@ def gen_script(rng, nruns, long_pauses):
                     cur = not cur
                     ctl.append("e" if cur else "d")
                     awaiting = False
+                elif x < 0.60:
+                    # a reconfiguration of the running camera that KEEPS the trigger enabled (the client changed something else, e.g. the
+                    # exposure): the run stays gated, and the set must not let a frame through
+                    ctl.append("e")
+                    awaiting = False
                 else:
                     ctl.append("p" * rng.randint(1, 6 if long_pauses else 2))
             else:
@@ -133,6 +138,9 @@ def gen_script(rng, nruns, long_pauses):
                 elif x < 0.18:
                     cur = not cur
                     ctl.append("e" if cur else "d")
+                    awaiting = False
+                elif x < 0.22:
+                    ctl.append("d")                # reconfigured while running, trigger still disabled
                     awaiting = False
                 else:
                     ctl.append("p" * rng.randint(1, 6 if long_pauses else 2))
